@@ -107,6 +107,11 @@ func main() {
 			nNest, nBig = 400, 300
 		}
 		genNested(o, r, repo, nNest, th)
+		nPart := 120
+		if th {
+			nPart = 1500
+		}
+		genPartialTrees(o, r, nPart)
 		genBigV(o, r, nBig)
 		nSess := 30
 		if th {
